@@ -138,12 +138,19 @@ class BaseIntervalScorer(BaseEstimator):
         """
         self.check_is_fitted()
         cuts = as_2d_array(cuts, vector_as_column=False)
-        if np.issubdtype(cuts.dtype, np.unsignedinteger):
-            # Differences of unsigned integers wrap around instead of going negative,
-            # such that decreasing cuts would pass the ordering checks.
-            cuts = cuts.astype(np.int64)
-        cuts = self._check_cuts(cuts)
         n_samples = len(self._X)
+        if np.issubdtype(cuts.dtype, np.integer):
+            # Differences of unsigned or narrow integers, and of int64 entries far
+            # outside the data, wrap around instead of going negative, such that
+            # invalid cuts would pass the ordering checks. Narrow integers also
+            # overflow inside the scores.
+            cuts = cuts.astype(np.int64, copy=False)
+            if np.any(cuts < 0) or np.any(cuts > n_samples):
+                raise ValueError(
+                    f"All entries of `cuts` must be between 0 and {n_samples}, the "
+                    "number of samples in the fitted data."
+                )
+        cuts = self._check_cuts(cuts)
         if np.any(cuts[:, 0] < 0) or np.any(cuts[:, -1] > n_samples):
             raise ValueError(
                 f"All entries of `cuts` must be between 0 and {n_samples}, the number of"
